@@ -71,11 +71,13 @@ def check(ctx, prop):
     if len(runs) != len(scheds):
         raise Broken("harness recorded %d runs for %d schedules" % (len(runs), len(scheds)))
     consumed, viol, _ = layers.observe(ctx, DIR, "Obs_Cache.tla", "Obs_Cache.cfg", rows)
-    violations = []
-    for line, inv in viol:
+    violations, first = [], set()
+    for line, inv in sorted(viol):
         ev = rows[line - 1]
-        # which schedule
-        idx = sum(1 for r in rows[:line] if r["ev"] == "Reset") - 1
+        idx = sum(1 for r in rows[:line] if r["ev"] == "Reset") - 1  # which schedule
+        if (idx, inv) in first:
+            continue  # only the first line of a schedule at which a clause becomes false
+        first.add((idx, inv))
         sig = "%s@%s" % (inv, ev["ev"])
         path = save_replay(prop, "sched-%s.json" % re.sub(r"\W", "_", sig), {"schedule": scheds[idx], "label": labels[idx], "trace": runs[idx], "line": ev})
         violations.append(Violation(prop, sig, "%s false on the real cache after %s(%s) [schedule %s, replay %s]" % (inv, ev["ev"], ev.get("k"), labels[idx], path), {"schedule": scheds[idx], "event": ev}))
